@@ -642,6 +642,47 @@ fn main() {
                 let max = track::MAX.load(std::sync::atomic::Ordering::SeqCst);
                 format!("{{\"input_len\":{},\"ok\":{},\"max_alloc\":{}}}", input.len(), ok, max)
             }
+            // iochunk <k>: values that go through the io reader's peek buffer, decoded from a reader that
+            //   delivers at most <k> bytes per read() call, compared with the slice reader
+            "iochunk" => {
+                struct Chunked<'a>(&'a [u8], usize);
+                impl std::io::Read for Chunked<'_> {
+                    fn read(&mut self, buf: &mut [u8]) -> std::io::Result<usize> {
+                        let n = buf.len().min(self.1).min(self.0.len());
+                        buf[..n].copy_from_slice(&self.0[..n]);
+                        self.0 = &self.0[n..];
+                        Ok(n)
+                    }
+                }
+                use fe2o3_amqp_types::messaging::DeliveryState;
+                use serde_amqp::primitives::{Dec32, Dec64, Symbol, Uuid};
+                let k = (nums[0] as usize).max(1);
+                let mut agree = true;
+                fn both<T: serde::de::DeserializeOwned + std::fmt::Debug>(bytes: &[u8], k: usize) -> bool {
+                    let a = serde_amqp::from_slice::<T>(bytes).map(|v| format!("{:?}", v)).map_err(|_| ());
+                    let b = serde_amqp::from_reader::<T>(Chunked(bytes, k)).map(|v| format!("{:?}", v)).map_err(|_| ());
+                    a.is_ok() && a == b
+                }
+                let uuid = serde_amqp::to_vec(&Uuid::from([1u8, 2, 3, 4, 5, 6, 7, 8, 9, 10, 11, 12, 13, 14, 15, 16])).unwrap();
+                agree &= both::<Uuid>(&uuid, k);
+                agree &= both::<Dec32>(&serde_amqp::to_vec(&Dec32::from([9u8, 8, 7, 6])).unwrap(), k);
+                agree &= both::<Dec64>(&serde_amqp::to_vec(&Dec64::from([9u8, 8, 7, 6, 5, 4, 3, 2])).unwrap(), k);
+                agree &= both::<Symbol>(&serde_amqp::to_vec(&Symbol::from("amqp:accepted:list")).unwrap(), k);
+                let mut described = vec![0x00u8, 0xa3, 18];
+                described.extend_from_slice(b"amqp:accepted:list");
+                described.push(0x45);
+                agree &= both::<DeliveryState>(&described, k);
+                let mut described32 = vec![0x00u8, 0xb3, 0, 0, 0, 18];
+                described32.extend_from_slice(b"amqp:released:list");
+                described32.push(0x45);
+                agree &= both::<DeliveryState>(&described32, k);
+                let mut s8 = vec![0xa1u8, 11];
+                s8.extend_from_slice(b"hello world");
+                let sa = serde_amqp::from_slice::<String>(&s8).is_ok();
+                let sb = serde_amqp::from_reader::<StrOnly>(Chunked(&s8, k)).is_ok();
+                agree &= sa && sb;
+                format!("{{\"agree\":{}}}", agree)
+            }
             // wakeup <pos> <credit>: one waiter with no credit, one grant of <credit> placed
             //   pos 0: before the first poll, 1: at the cfg schedule point (between the failed credit
             //   check and the creation of the wait future), 2: after the first poll returned Pending;
